@@ -128,6 +128,10 @@ type ParseOptions struct {
 	// MaxPageRecords, if > 0, is the configured page size: every page must
 	// hold at most that many records.
 	MaxPageRecords int
+	// AllowEmptyRowGroups accepts row groups with num_rows 0 (legal in the
+	// format and emitted by some writers; this library's writer must not
+	// produce them, so the default treats them as a problem).
+	AllowEmptyRowGroups bool
 }
 
 // SchemaFromElements rebuilds the schema tree from the footer's flat list.
@@ -542,7 +546,7 @@ func ParseFile(b []byte, opt ParseOptions) (*File, error) {
 		if tb, _ := rv.S.I(2); tb != sumUncomp && tb != sumComp {
 			f.bad("rg.total_byte_size", "row group %d: total_byte_size %d is neither the sum of total_uncompressed_size (%d) nor of total_compressed_size (%d)", gi, tb, sumUncomp, sumComp)
 		}
-		if rows <= 0 {
+		if rows < 0 || (rows == 0 && !opt.AllowEmptyRowGroups) {
 			f.bad("rg.empty", "row group %d has num_rows %d", gi, rows)
 		}
 	}
